@@ -140,4 +140,22 @@ theorem rowNear_le_entry (d : Matrix) (n i j : Nat) (hj : j < n) (hij : i ≠ j)
     rowNear d n i ≤ entry d i j :=
   (foldNear_le (entry d i) i (List.range n) _).2 j (List.mem_range.mpr hj) (Ne.symm hij)
 
+theorem foldNear_nonneg (g : Nat → Int) (i : Nat) (l : List Nat) (init : Int) (hi : 0 ≤ init)
+    (hg : ∀ j ∈ l, 0 ≤ g j) : 0 ≤ l.foldl (fun f j => if j = i then f else min f (g j)) init := by
+  induction l generalizing init with
+  | nil => simpa
+  | cons a t ih =>
+    simp only [List.foldl_cons]
+    apply ih
+    · split
+      · exact hi
+      · have := hg a (by simp); omega
+    · intro j hj; exact hg j (by simp [hj])
+
+theorem entry_mem (M : Matrix) (i j : Nat) (hi : i < M.length) (hj : j < (M[i]).length) :
+    entry M i j = (M[i])[j] := by
+  unfold entry
+  simp [List.getD_eq_getElem?_getD, List.getElem?_eq_getElem hi, List.getElem?_eq_getElem hj]
+
+
 end Tsp
